@@ -7,20 +7,20 @@ regex) naming the functions whose obligations serve the property.  A function na
 
 # ---- module regexes
 G = r'^arch::generic::memchr$'
-X86 = r'^arch::x86_64::(sse2|avx2)::memchr$'
+X86 = r'^arch::(x86_64::(sse2|avx2)|aarch64::neon|wasm32::simd128)::memchr$'
 SWAR = r'^arch::all::memchr$'
-DISP = r'^arch::x86_64::memchr$'
+DISP = r'^arch::(x86_64|aarch64|wasm32)::memchr$'
 TOP = r'^memchr$'
 EQ = r'^arch::all$'
 RK = r'^arch::all::rabinkarp$'
 TW = r'^arch::all::twoway$'
 APP = r'^arch::all::packedpair(::default_rank)?$'
 GPP = r'^arch::generic::packedpair$'
-XPP = r'^arch::x86_64::(sse2|avx2)::packedpair$'
+XPP = r'^arch::(x86_64::(sse2|avx2)|aarch64::neon|wasm32::simd128)::packedpair$'
 PRE = r'^memmem::searcher$'
 MM = r'^memmem$'
 COW = r'^cow$'
-LEAF = [(r'^ext$', r'.*'), (r'^vector$', r'.*'), (r'^vbase$', r'.*')]
+LEAF = [(r'^ext$', r'.*'), (r'^vector$', r'.*'), (r'^vbase$', r'.*'), (r'^isa$', r'.*')]
 LEMMAS = r'(lemma_.*|hint\d?|rhint\d?|nohint|nohit\d?)'
 
 S = r'(One|Two|Three)::'
@@ -50,7 +50,7 @@ SEL_C07 = LEAF + [(G, CNT), (G, r'(count_byte_by_byte|count_hits|Iter::count)'),
                   (TOP, r'(count_raw|Memchr::count)')]
 SEL_C06 = LEAF + [(G, r'Iter::.*'), (X86, ITERS), (X86, S + r'iter'), (SWAR, ITERS), (SWAR, S + r'iter'),
                   (TOP, r'(Memchr|Memchr2|Memchr3)::.*'), (TOP, r'memchr[23]?_iter'), (r'^hist$', r'.*')]
-PTR_MODS = [G, X86, SWAR, DISP, TOP, EQ, RK, GPP, XPP, APP, r'^ext$', r'^vector$']
+PTR_MODS = [G, X86, SWAR, DISP, TOP, EQ, RK, GPP, XPP, APP, r'^ext$', r'^vector$', PRE]
 SEL_C05 = [(m, r'.*') for m in PTR_MODS]
 SEL_RK_F = [(RK, r'(Finder::(new|find|find_raw)|Hash::.*|is_fast|is_equal_raw)'), (RK, LEMMAS), (EQ, r'.*')]
 SEL_RK_R = [(RK, r'(FinderRev::(new|rfind|rfind_raw)|Hash::.*|is_fast|is_equal_raw)'), (RK, LEMMAS), (EQ, r'.*')]
@@ -76,7 +76,7 @@ SEL_SUB_R = SEL_RK_R + SEL_TW_R + SEL_C02
 A_TW = 'A6 Two-Way completeness (no occurrence skipped) is NOT proved: assumed in the memmem build (stub_twoway), backed only by bounded Kani harnesses (needle<=4/haystack<=7 quick, <=5/<=9 thorough)'
 A_GLUE = 'A6 calling through the fn pointers of the meta searcher (Searcher::find/new, Prefilter::find and its constructors, i.e. the pairing of `call` with the active union field) is represented by an assumed contract; the union-reading glue functions searcher_kind_* / prefilter_kind_* themselves ARE proved; the fn-pointer hop is executed only by the bounded Kani glue harnesses'
 A_DISP = 'A2 unsafe_ifunc! dispatcher: finally calls one of find_avx2/find_sse2/find_fallback (each verified) with the same arguments (rule X6; AtomicPtr/transmute/cpuid not verified)'
-A_LEAF = 'A3 x86 Vector leaf impls are external_body in Verus; closed by loop-free full-domain Kani harnesses (trusting Kani\'s SSE2/AVX2 intrinsic models); NEON/wasm32 backends are not covered'
+A_LEAF = 'A3 x86 Vector leaf impls are external_body in Verus, closed by loop-free full-domain Kani harnesses (trusting Kani\'s SSE2/AVX2 intrinsic models); the NEON and wasm32 Vector impls are VERIFIED against per-instruction intrinsic specifications in prelude/isa.vrs, which are a trusted ISA model (no Kani cross-check possible on this host)'
 A_CTOR = 'Rabin-Karp constructors, Pair::with_ranker, ApproximateByteSet::new use iterator adapters outside Verus\' language: contract assumed (external_body), backed by bounded Kani harnesses'
 
 K_LEAF = [dict(name='leaf_sse2'), dict(name='leaf_avx2'), dict(name='leaf_sse2_aligned_load'), dict(name='leaf_avx2_aligned_load')]
@@ -98,12 +98,17 @@ K_GLUE = [dict(name='bounded_glue_fwd_n2_h4', bounded=True, bound='needle=2 byte
 K_GLUE_R = [dict(name='bounded_glue_rev_n3_h6', bounded=True, bound='needle<=3, haystack<=6', timeout=1500)]
 K_TWPRE = [dict(name='bounded_twoway_prefilter_fwd_n3_h7', bounded=True, bound='needle 2..=3, haystack<=7, Two-Way with the portable prefilter', tier='thorough', timeout=14400)]
 
+def others(select, mods=None):
+    """the same selection on the builds for the other targets (text the x86_64 host never compiles)"""
+    return [dict(build=b, modules=None, select=select) for b in ('aarch64', 'wasm32', 'other')]
+
+
 PROPS = {
     'C01': dict(level='proof', kinds=FUNCTIONAL, kani=K_LEAF,
-                builds=[dict(build='main', modules=MAIN_MODS_MEMCHR, select=SEL_C01)],
+                builds=[dict(build='main', modules=MAIN_MODS_MEMCHR, select=SEL_C01)] + others(SEL_C01),
                 assumptions=[A_DISP, A_LEAF]),
     'C02': dict(level='proof', kinds=FUNCTIONAL, kani=K_LEAF,
-                builds=[dict(build='main', modules=MAIN_MODS_MEMCHR, select=SEL_C02)],
+                builds=[dict(build='main', modules=MAIN_MODS_MEMCHR, select=SEL_C02)] + others(SEL_C02),
                 assumptions=[A_DISP, A_LEAF]),
     'C03': dict(level='other', kinds=FUNCTIONAL, kani=K_TW_F + K_RK_F + K_GLUE + K_TWPRE,
                 builds=[dict(build='memmem', modules=['memmem', 'cow', 'x_memmem'], select=SEL_MM_F),
@@ -120,18 +125,18 @@ PROPS = {
                 assumptions=[A_TW, A_CTOR]),
     'C05': dict(level='proof', kinds=('precondition', 'postcondition', 'invariant'), mem_only=True, kani=K_LEAF,
                 builds=[dict(build='main', modules=MAIN_MODS_MEMCHR + MAIN_MODS_SUB, select=SEL_C05),
-                        dict(build='safe', modules=None, select=SEL_C05)],
+                        dict(build='safe', modules=None, select=SEL_C05)] + others(SEL_C05),
                 explanation='every read/read_unaligned/load_*/add/sub/offset/offset_from in the extracted units carries a readable-range / '
                             'in-bounds / alignment precondition (prelude/vbase.vrs) that Verus discharges at each call site; the packed-pair '
                             'finders are additionally verified in the S variant (release semantics, type invariant only, any needle)',
                 assumptions=[A_DISP, A_LEAF, 'Two-Way and Shift-Or use safe indexing only (no pointer obligations); Shift-Or is not extracted']),
     'C06': dict(level='proof', kinds=FUNCTIONAL, kani=[],
-                builds=[dict(build='main', modules=MAIN_MODS_MEMCHR + ['hist'], select=SEL_C06 + SEL_C01 + SEL_C02 + SEL_C07)],
+                builds=[dict(build='main', modules=MAIN_MODS_MEMCHR + ['hist'], select=SEL_C06 + SEL_C01 + SEL_C02 + SEL_C07)] + others(SEL_C06 + SEL_C01 + SEL_C02 + SEL_C07),
                 explanation='per-operation window contracts on the real next/next_back/size_hint/count + a spec-level history machine '
                             '(prelude/hist.vrs) whose inductive lemmas give freshness, order, completeness and fusedness for every call order',
                 assumptions=['std Iterator/DoubleEndedIterator trait headers dropped (X7): methods verified as inherent fns', A_DISP]),
     'C07': dict(level='proof', kinds=FUNCTIONAL, kani=K_LEAF + K_POP,
-                builds=[dict(build='main', modules=MAIN_MODS_MEMCHR, select=SEL_C07)],
+                builds=[dict(build='main', modules=MAIN_MODS_MEMCHR, select=SEL_C07)] + others(SEL_C07),
                 assumptions=[A_DISP, A_LEAF, 'u32::count_ones spec (popcount32) assumed in Verus, cross-checked by Kani harness leaf_count_ones_spec']),
     'C08': dict(level='other', kinds=FUNCTIONAL, kani=K_TW_F + K_TW_R,
                 builds=[dict(build='memmem', modules=['memmem', 'x_memmem'],
@@ -143,11 +148,11 @@ PROPS = {
                             'assumed Searcher / SearcherRev contracts (C03/C04 decide those)',
                 assumptions=[A_GLUE, A_TW]),
     'C09': dict(level='proof', kinds=FUNCTIONAL, kani=K_LEAF,
-                builds=[dict(build='main', modules=MAIN_MODS_MEMCHR + MAIN_MODS_SUB, select=SEL_C01 + SEL_C02 + SEL_C07 + SEL_SUB_F + SEL_SUB_R)],
+                builds=[dict(build='main', modules=MAIN_MODS_MEMCHR + MAIN_MODS_SUB, select=SEL_C01 + SEL_C02 + SEL_C07 + SEL_SUB_F + SEL_SUB_R)] + others(SEL_C01 + SEL_C02 + SEL_C07 + SEL_PP_FIND + SEL_PP_PRE),
                 explanation='corollary: SWAR, SSE2 and AVX2 implementations and all three dispatcher targets are proved against the same '
                             'functional specification whose answer is unique',
-                assumptions=[A_DISP, A_LEAF, 'NEON and wasm32 simd128 wrappers/Vector impls are not extracted in this version (host cannot compile them); the '
-                                             'generic algorithm they instantiate is proved for every V: Vector satisfying the trait contract']),
+                assumptions=[A_DISP, A_LEAF, 'cargo features (std/alloc/none) and compile-time +avx2 only change is_available() arms, which carry no postcondition '
+                                             '(every outcome is covered); is_available of NEON/simd128 is proved true under its cfg']),
     'C10': dict(level='other', kinds=FUNCTIONAL, kani=K_GLUE + K_PAIR + K_TWPRE,
                 builds=[dict(build='memmem', modules=['memmem', 'x_memmem'], select=[(MM, r'(Finder::find|FindIter::next|FinderBuilder::.*)'), (PRE, r'(Pre|PrefilterState)::.*')]),
                         dict(build='main', modules=MAIN_MODS_SUB + MAIN_MODS_MEMCHR,
@@ -157,7 +162,7 @@ PROPS = {
                             'symbolic ranker table and symbolic config',
                 assumptions=[A_GLUE, A_TW]),
     'C11': dict(level='proof', kinds=FUNCTIONAL, kani=K_LEAF,
-                builds=[dict(build='main', modules=MAIN_MODS_SUB + MAIN_MODS_MEMCHR, select=SEL_PP_PRE + SEL_GLUE_P + SEL_C01)],
+                builds=[dict(build='main', modules=MAIN_MODS_SUB + MAIN_MODS_MEMCHR, select=SEL_PP_PRE + SEL_GLUE_P + SEL_C01)] + others(SEL_PP_PRE + SEL_C01)[:2],
                 assumptions=[A_LEAF, 'the fn-pointer hop Prefilter::find -> prefilter_kind_* is glue (bounded Kani only)']),
     'C12': dict(level='other', kinds=FUNCTIONAL, kani=K_TW_F + K_TW_R + K_RK_F + K_RK_R + K_SO,
                 builds=[dict(build='main', modules=MAIN_MODS_SUB, select=SEL_RK_F + SEL_RK_R + SEL_PP_FIND + SEL_TW_F + SEL_TW_R)],
@@ -166,7 +171,7 @@ PROPS = {
                 assumptions=[A_TW, A_CTOR, A_LEAF]),
     'C14': dict(level='proof', kinds=PANIC, non_mem=True, kani=K_PAIR,
                 builds=[dict(build='main', modules=MAIN_MODS_MEMCHR + MAIN_MODS_SUB, select=[(r'.*', r'.*')]),
-                        dict(build='memmem', modules=['memmem', 'cow', 'x_memmem'], select=[(MM, r'.*'), (COW, r'.*'), (PRE, r'.*')])],
+                        dict(build='memmem', modules=['memmem', 'cow', 'x_memmem'], select=[(MM, r'.*'), (COW, r'.*'), (PRE, r'.*')])] + others([(r'.*', r'.*')]),
                 explanation='every debug_assert (X3), assert (X4, pinned to the documented precondition both ways), index, slice, subtraction, '
                             'shift and unwrap in the extracted units is an obligation discharged by Verus',
                 assumptions=[A_CTOR, 'Shift-Or and the union/fn-pointer glue are covered by bounded Kani only']),
